@@ -144,6 +144,13 @@ def run_c19(ctx, spec, out):
                 texts.append(gen.gen_stats_query(rng, schema, gds, opts))
             else:
                 texts.append(gen.gen_data_query(rng, schema, gds, opts))
+        # columns that are not fetched from the backend but built during the synchronisation (id lists of comments and
+        # downtimes, lower-case copies) are asked for in every snapshot
+        texts += ["GET hosts\nColumns: name comments downtimes peer_key\nOutputFormat: wrapped_json\nSort: name asc\n\n",
+                  "GET services\nColumns: host_name description comments downtimes peer_key\nOutputFormat: wrapped_json\nSort: host_name asc\nSort: description asc\n\n",
+                  "GET hosts\nStats: comments >= 1\nStats: downtimes >= 1\nOutputFormat: json\n\n",
+                  "GET services\nColumns: host_name description\nFilter: comments != \nFilter: downtimes != \nOr: 2\nOutputFormat: wrapped_json\n\n",
+                  "GET hosts\nColumns: name\nFilter: name =~ %s\nOutputFormat: wrapped_json\n\n" % rng.choice(["HOST_1", "web1", "ÜBER", "zeta"])]
         first = []
         for text in texts:
             n += 1
